@@ -122,15 +122,7 @@ def build_module(unit, harness_text, harnesses, modname="verif_harness"):
         w.append("        \"%s\" => h_%s," % (h.name, h.name))
     w.append("        other => panic!(\"unknown harness {}\", other),")
     w.append("    };")
-    w.append("    let res = std::panic::catch_unwind(move || { let mut s = In { vals, pos: 0 }; f(&mut s) });")
-    w.append("    match res {")
-    w.append("        Ok(Ok(())) => println!(\"VERIF-REPLAY-OUTCOME: PASSED\"),")
-    w.append("        Ok(Err(m)) => println!(\"VERIF-REPLAY-OUTCOME: {}\", m),")
-    w.append("        Err(p) => {")
-    w.append("            let msg = if let Some(s) = p.downcast_ref::<String>() { s.clone() } else if let Some(s) = p.downcast_ref::<&str>() { s.to_string() } else { \"?\".to_string() };")
-    w.append("            println!(\"VERIF-REPLAY-OUTCOME: PANIC {}\", msg)")
-    w.append("        }")
-    w.append("    }")
+    w.append(open(os.path.join(CONTRACTS, "replay_entry.rs")).read())
     w.append("}")
     w.append("}")
     return "\n".join(w) + "\n"
